@@ -1021,3 +1021,35 @@ func TestFinding116_117_ErrorPointerAndOverflow(t *testing.T) {
 		t.Errorf("a number that fits: %q %v", out, err)
 	}
 }
+
+// row 118 — C17.R23: a struct and its first field share an address
+type f118B struct {
+	Name string `json:"name"`
+}
+type f118C struct {
+	B f118B  `json:"b"`
+	X string `json:"x"`
+}
+type f118A struct {
+	C  *f118C `json:"c"`
+	PB *f118B `json:"pb"`
+}
+type f118Outer struct {
+	Inner f118B  `json:"inner"`
+	First *f118B `json:"first"`
+}
+
+func TestFinding118_AStructAndItsFirstFieldShareAnAddress(t *testing.T) {
+	a := f118A{C: &f118C{B: f118B{Name: "bob"}, X: "x"}}
+	a.PB = &a.C.B
+	var buf bytes.Buffer
+	if err := vuego.New().Fill(a).RenderString(context.Background(), &buf, `<p>[{{ c.b.name }}][{{ c.x }}][{{ pb.name }}][{{ pb.x }}]</p>`); err != nil || !strings.Contains(buf.String(), "[bob][x][bob][]") {
+		t.Errorf("two pointers of two types to one address: %q %v", buf.String(), err)
+	}
+	o := &f118Outer{Inner: f118B{Name: "bob"}}
+	o.First = &o.Inner
+	buf.Reset()
+	if err := vuego.New().Fill(o).RenderString(context.Background(), &buf, `<p>[{{ inner.name }}][{{ first.name }}]</p>`); err != nil || !strings.Contains(buf.String(), "[bob][bob]") {
+		t.Errorf("a pointer to the struct's first field: %q %v", buf.String(), err)
+	}
+}
